@@ -563,12 +563,13 @@ func (r *vfC17Rig) closeConn(id int) {
 	c.Close()
 }
 
-// vfC17KeyHugeCreateShrink: second face of the same defect of the unchanged tree (negative parking in
+// vfC17KeyHugeCreateShrink: second face of the same defect (fixed by d0aa07d; negative parking in
 // NewSem): the first lowering of a cap the listener was CREATED with (> 20M) asks the weighted
 // semaphore for more than its size as soon as more permits are held than the new cap allows.
 const vfC17KeyHugeCreateShrink = "listener-created-with-maxConnections-above-20M: a shrink below the current usage is never applied"
 
-// vfC17KeyHugeCreatePanic: genuine defect of the unchanged tree (see proposed_known.jsonl).
+// vfC17KeyHugeCreatePanic: was a genuine defect of the tree (fixed in /repo by d0aa07d; the key and the
+// HasKnown-gated steering below stay as a regression probe: with no known entry nothing is steered).
 const vfC17KeyHugeCreatePanic = "listener-created-with-maxConnections-above-20M: closing a connection panics (semaphore: released more than held)"
 
 // panicToViolation (deferred around calls into the listener made on harness goroutines): a panic
@@ -976,7 +977,7 @@ func TestVerifC17Listener(t *testing.T) {
 			public = false
 		}
 		// A listener created with a cap above 20M is in a special condition until its first capacity
-		// change has been applied: the unchanged tree has two known defects there (Close panics; a
+		// change has been applied: the tree had two defects there until d0aa07d (Close panics; a
 		// shrink below the usage never ends). While they are listed as known, the case is steered
 		// around them (no close / accept error before the first change; the first change only when
 		// it is not below the usage) so that the search continues behind them - and the first change
